@@ -106,6 +106,9 @@ def decide(prop, tier='quick', seed=0, units=None, jobs=8, quiet=False):
     for r in results:
         if r.status == 'undecided':
             undecided.append('%s: %s' % (r.unit, r.reason))
+        for f in r.fns:
+            if f.get('excluded') and not f['known'] and (prop in f['props'] or prop in f['safety'] or any(prop in c['tags'] for c in f['clauses'])):
+                undecided.append('%s: %s is outside the verifier\'s reach in its current shape (%s)' % (r.unit, f['qual'], '; '.join(m for (m, q) in getattr(r, 'hard_first', []) if q == f['qual'])[:300]))
         for a in r.assumptions:
             if a not in assumptions:
                 assumptions.append(a)
@@ -118,7 +121,7 @@ def decide(prop, tier='quick', seed=0, units=None, jobs=8, quiet=False):
                 continue
             key = (f['emit_name'] if not f['qual'].count('::') else f['qual'].rsplit('::', 1)[0] + '::' + f['emit_name'])
             obl = r.obligations.get(key, {})
-            if f['known'] or f['mode'] == 'external_body':
+            if f['known'] or f['mode'] == 'external_body' or f.get('excluded'):
                 continue
             if any(x['function'] == f['qual'] for x in fn_list):
                 continue   # prelude items (e.g. Types::next_log_index) are re-proved in every unit; count once
